@@ -192,6 +192,137 @@ def canonicalise(tree):
                     changed = True
 
 
+def _pure_self_chain(e, selfname):
+    """self.a / self.a.b ... (attribute chain on the receiver, no call, no subscript)"""
+    depth = 0
+    while isinstance(e, ast.Attribute):
+        e = e.value
+        depth += 1
+    return depth >= 1 and isinstance(e, ast.Name) and e.id == selfname
+
+
+def uncache_attribute_locals(tree):
+    """`objs = self.refinementObjects ... objs.pop(i)`  ->  `self.refinementObjects.pop(i)`: a local that only caches an attribute
+    chain of the receiver is replaced by the chain, when
+      * the local is bound exactly once, by a plain assignment that is a direct statement of some block, and every use lies in the
+        statements that follow it in that block (so the binding dominates all uses),
+      * no attribute of the chain is assigned (`self.a = ...`, `del`, augmented) anywhere in the function, the local is not captured
+        by a nested function / lambda and not declared global / nonlocal.
+    Looking the attribute up once or at every use is then the same program to every rule."""
+    for fn in [n for n in ast.walk(tree) if isinstance(n, (ast.FunctionDef, ast.AsyncFunctionDef))]:
+        a_ = fn.args
+        params = [x.arg for x in a_.posonlyargs + a_.args]
+        if not params:
+            continue
+        selfname = params[0]
+        changed = True
+        rounds = 0
+        while changed and rounds < 6:
+            changed = False
+            rounds += 1
+            stores, loads = {}, {}
+            nested_names = set()
+            for n in ast.walk(fn):
+                if isinstance(n, ast.Name):
+                    (stores if isinstance(n.ctx, (ast.Store, ast.Del)) else loads).setdefault(n.id, []).append(n)
+                elif isinstance(n, (ast.FunctionDef, ast.AsyncFunctionDef, ast.Lambda)) and n is not fn:
+                    nested_names |= {x.id for x in ast.walk(n) if isinstance(x, ast.Name)}
+                elif isinstance(n, (ast.Global, ast.Nonlocal)):
+                    nested_names |= set(n.names)
+            attr_stores = set()
+            for n in ast.walk(fn):
+                if isinstance(n, ast.Attribute) and isinstance(n.ctx, (ast.Store, ast.Del)):
+                    attr_stores.add(n.attr)
+            for node in ast.walk(fn):
+                for field in ("body", "orelse", "finalbody"):
+                    block = getattr(node, field, None)
+                    if not (isinstance(block, list) and block and isinstance(block[0], ast.stmt)):
+                        continue
+                    for k, st in enumerate(block):
+                        if not (isinstance(st, ast.Assign) and len(st.targets) == 1 and isinstance(st.targets[0], ast.Name)
+                                and _pure_self_chain(st.value, selfname)):
+                            continue
+                        x = st.targets[0].id
+                        if x in params or x in nested_names or len(stores.get(x, [])) != 1:
+                            continue
+                        chain_attrs = {n.attr for n in ast.walk(st.value) if isinstance(n, ast.Attribute)}
+                        uses = loads.get(x, [])
+                        after = {id(n) for later in block[k + 1:] for n in ast.walk(later)}
+                        if not uses or not all(id(u) in after for u in uses):
+                            continue
+                        if chain_attrs & attr_stores:
+                            # tolerated only when the attribute is re-assigned after the last use of the local, in straight-line code of
+                            # the function body (nothing can lead back from the re-assignment to a use)
+                            if block is not fn.body:
+                                continue
+                            use_ids = {id(u) for u in uses}
+                            last_use = max(j for j in range(k + 1, len(block)) if any(id(n) in use_ids for n in ast.walk(block[j])))
+                            early = False
+                            for j, later in enumerate(block):
+                                if j <= last_use and later is not st and any(isinstance(n, ast.Attribute) and isinstance(n.ctx, (ast.Store, ast.Del))
+                                                                            and n.attr in chain_attrs for n in ast.walk(later)):
+                                    early = True
+                            if early:
+                                continue
+                        # the cached object must not be the target of an augmented assignment through the local (x += ... re-binds x)
+                        import copy as _copy
+
+                        class _Sub(ast.NodeTransformer):
+                            def visit_Name(self, n_):
+                                if n_.id == x and isinstance(n_.ctx, ast.Load):
+                                    new_ = _copy.deepcopy(st.value)
+                                    return ast.copy_location(new_, n_)
+                                return n_
+                        for j in range(k + 1, len(block)):
+                            block[j] = _Sub().visit(block[j])
+                        del block[k]
+                        changed = True
+                        break
+                    if changed:
+                        break
+                if changed:
+                    break
+
+
+def unmove_static_aliases(tree):
+    """`def _f(..): ...` at module level plus `name = staticmethod(_f)` in a class body (a method moved out of its class, the old name
+    kept as an alias) is turned back into a static method `name` of that class; direct calls `_f(...)` become `Class.name(...)`."""
+    funcs = {st.name: st for st in tree.body if isinstance(st, (ast.FunctionDef,))}
+    moved = {}
+    for cls in [st for st in tree.body if isinstance(st, ast.ClassDef)]:
+        for k, st in enumerate(cls.body):
+            if isinstance(st, ast.Assign) and len(st.targets) == 1 and isinstance(st.targets[0], ast.Name) and isinstance(st.value, ast.Call) \
+                    and isinstance(st.value.func, ast.Name) and st.value.func.id == "staticmethod" and len(st.value.args) == 1 \
+                    and isinstance(st.value.args[0], ast.Name) and st.value.args[0].id in funcs and st.value.args[0].id.startswith("_"):
+                f = funcs[st.value.args[0].id]
+                if f.name in moved:
+                    continue
+                import copy as _copy
+                new = _copy.deepcopy(f)
+                new.name = st.targets[0].id
+                new.decorator_list = [ast.Name(id="staticmethod", ctx=ast.Load())] + list(new.decorator_list)
+                ast.copy_location(new, f)
+                cls.body[k] = new
+                moved[f.name] = (cls.name, new.name)
+    if not moved:
+        return 0
+
+    class _Calls(ast.NodeTransformer):
+        def visit_Call(self, n):
+            self.generic_visit(n)
+            if isinstance(n.func, ast.Name) and n.func.id in moved:
+                c_, m_ = moved[n.func.id]
+                n.func = ast.copy_location(ast.Attribute(value=ast.Name(id=c_, ctx=ast.Load()), attr=m_, ctx=ast.Load()), n.func)
+            return n
+    for st in tree.body:
+        if isinstance(st, ast.FunctionDef) and st.name in moved:
+            continue
+        _Calls().visit(st)
+    tree.body = [st for st in tree.body if not (isinstance(st, ast.FunctionDef) and st.name in moved)]
+    ast.fix_missing_locations(tree)
+    return len(moved)
+
+
 class ModuleInfo:
     def __init__(self, name, path, source):
         self.name = name
@@ -205,6 +336,8 @@ class ModuleInfo:
                 self.tree = ast.parse(source, filename=path)
         except SyntaxError as e:
             raise AnalysisError("syntax error in %s: %s" % (path, e))
+        unmove_static_aliases(self.tree)
+        uncache_attribute_locals(self.tree)
         canonicalise(self.tree)
         self.star_imports = []     # module names (package-local or external)
         self.names = {}            # local name -> ('class'|'func'|'module'|'external'|'var', target)
